@@ -88,6 +88,17 @@ fn ilv_programs() -> Vec<Program> {
     }
     v.push(mk("put_with_ttl(k);put(k)-one-thread", vec![], vec![vec![Op::Put { k: 1, w: None, ttl_ms: Some(5000) }, Op::Put { k: 1, w: None, ttl_ms: None }]]));
     v.push(mk("put(k);put_with_ttl(k)-one-thread", vec![], vec![vec![Op::Put { k: 1, w: Some(2), ttl_ms: None }, Op::Put { k: 1, w: Some(3), ttl_ms: Some(5000) }]]));
+    // the same on a full cache: admitting the second put would have to evict the key's own entry
+    for (na, ta) in variants {
+        let mut p = mk(&format!("{}(k,2)||put_with_weight(k,3) /W=3 (full cache)", na), vec![], vec![vec![Op::Put { k: 1, w: Some(2), ttl_ms: ta }], vec![Op::Put { k: 1, w: Some(3), ttl_ms: None }]]);
+        p.setup.weight = 3;
+        v.push(p);
+    }
+    {
+        let mut p = mk("put(k,2);put_ttl(k,3) unawaited /W=3 (full cache)", vec![], vec![vec![Op::Put { k: 1, w: Some(2), ttl_ms: None }, Op::Put { k: 1, w: Some(3), ttl_ms: Some(5000) }]]);
+        p.setup.weight = 3;
+        v.push(p);
+    }
     // a delete racing a put of the same key, then (all acknowledged) a probed put
     for (name, init_k, racing) in [
         ("delete(k)||put(k) ; then probed put(k)", Op::Put { k: 1, w: Some(2), ttl_ms: None }, Op::Put { k: 1, w: Some(3), ttl_ms: None }),
